@@ -99,7 +99,9 @@ def identifiers_used(first, rest):
     while stack:
         x = stack.pop()
         if isinstance(x, list) and x:
-            if x[0] == "q":
+            if x[0] == "list":
+                continue  # the items are scalars (possibly the strings "q", "k", ...), not AST nodes
+            if x[0] == "q" and len(x) == 3:
                 used.add({"$": "root", "@": "self", "_": "ctx", "^": "fake"}[x[1]])
             elif x[0] == "key":
                 used.add("key")
